@@ -4,6 +4,7 @@ import (
 	"encoding/json"
 	"fmt"
 	"sort"
+	"time"
 
 	"verif/shim/vsched"
 )
@@ -540,7 +541,14 @@ func c09Custom(j *Job) *JobResult {
 	}
 	res := &JobResult{Name: fmt.Sprintf("enum/max%d/%dresidents/batch", batch[0].MaxCost, len(batch[0].Costs)), Outcomes: map[string]int64{}, Complete: true}
 	seen := map[string]bool{}
+	start := time.Now()
 	for i := range batch {
+		if j.Seconds > 0 && time.Since(start).Seconds() > j.Seconds {
+			// a loaded machine: stop inside the budget (exhaustive=false) instead of being killed by the watchdog
+			res.Complete = false
+			res.CapHit = fmt.Sprintf("deadline after %d of %d configurations of the batch", i, len(batch))
+			break
+		}
 		c09Run(&batch[i], res, seen)
 		if res.Err != "" {
 			return res
